@@ -31,6 +31,9 @@ pub enum Extra {
     /// chain across directories with relative hops: s/x -> xsub/hop, s/xsub/hop -> final (relative to xsub),
     /// with a decoy of the same name next to the first link
     CrossDirChain(bool),
+    /// a chain of this many nested real directories with a file at the bottom, reached through a link (true)
+    /// or directly (false)
+    Deep(u16, bool),
 }
 
 #[derive(Clone, Debug, Serialize, Deserialize)]
@@ -54,6 +57,7 @@ pub fn strategy() -> BoxedStrategy<Case> {
         3 => any::<bool>().prop_map(Extra::OutDir),
         2 => Just(Extra::DirWithLinks),
         2 => any::<bool>().prop_map(Extra::CrossDirChain),
+        1 => (prop_oneof![Just(40u16), Just(150u16), Just(300u16)], any::<bool>()).prop_map(|(d, l)| Extra::Deep(d, l)),
     ];
     (prop::collection::vec(gent(NAMES.len(), true), 0..12), prop::collection::vec(extra, 0..3), common_flags(), any::<bool>(), prop::bool::weighted(0.15), prop::bool::weighted(0.6))
         .prop_map(|(tree, extras, flags, dest_exists, top_link, clean)| Case { tree, extras, flags, dest_exists, top_link, clean })
@@ -134,6 +138,19 @@ pub fn build(c: &Case, root: &[u8]) -> (Vec<Ent>, Inv) {
                 ents.push(Ent::link(&join(&sub, b"hop"), fin.as_bytes()));
                 ents.push(Ent::link(&p("start"), format!("x{}_xsub/hop", i).as_bytes()));
             }
+            Extra::Deep(depth, via_link) => {
+                // the deep tree lives outside the source when reached through a link, inside otherwise
+                let mut pth = if *via_link { format!("by/deep{}", i).into_bytes() } else { p("deep") };
+                ents.push(Ent::dir(&pth));
+                for _ in 0..*depth {
+                    pth.extend_from_slice(b"/n");
+                    ents.push(Ent::dir(&pth));
+                }
+                ents.push(Ent::file(&[pth.as_slice(), b"/bottom"].concat(), Content::data(9, 4)));
+                if *via_link {
+                    ents.push(Ent::link(&p("to_deep"), format!("../by/deep{}", i).as_bytes()));
+                }
+            }
             Extra::DirWithLinks => {
                 let d = p("ldir");
                 ents.push(Ent::dir(&d));
@@ -196,6 +213,9 @@ pub fn judge(c: &Case, rec: &mut Rec) -> Verdict {
         40 => "chain40",
         _ => "chain41+",
     };
+    if let Some(Extra::Deep(d, l)) = c.extras.iter().find(|x| matches!(x, Extra::Deep(..))) {
+        rec.class(format!("deep={}|via_link={}", d, l));
+    }
     if c.extras.iter().any(|x| matches!(x, Extra::CrossDirChain(_))) {
         rec.class("cross-directory-relative-chain");
     }
@@ -287,6 +307,6 @@ impl Check for C13 {
         }
     }
     fn required_classes(&self, _tier: Tier) -> Vec<String> {
-        ["mustfail|dangling", "mustfail|link", "mustfail|directory", "chain40", "dirlinks=1", "leaves-source", "top_link=true", "cross-directory-relative-chain"].iter().map(|s| s.to_string()).collect()
+        ["mustfail|dangling", "mustfail|link", "mustfail|directory", "chain40", "dirlinks=1", "leaves-source", "top_link=true", "cross-directory-relative-chain", "deep=150|via_link=true", "deep=300|"].iter().map(|s| s.to_string()).collect()
     }
 }
